@@ -87,7 +87,7 @@ def run(repo, R):
                 R.fail("KSEP", g.site, ast.unparse(node)[:80], f"[{name}] the primitive axis of shell {shell} is {kind[2:]}ed in `{ast.unparse(node)[:70]}`: the result "
                        f"would depend on the order / splitting of the primitives", where=g.where(node))
     report(R, repo.func("gbasis.integrals._moment_int._cleanup_intermediate_integrals"), findings)
-    R.floor("LIN", n_lin, 9, "kernel runs with a verified contraction normal form")
+    R.floor("LIN", n_lin, 6, "kernel runs with a verified contraction normal form")
     if not [x for x in R.findings if x.rule == "KSEP"]:
         R.ok("KSEP", "all integral kernels", "no primitive axis is indexed, sliced or partially reduced")
     # screening uses the primitives only through min()
